@@ -301,7 +301,7 @@ def misc_cov(chk, repo, d, eq):
     bcv = [D2.atom('bc_y2', 'real', kg=1, m=-3), D2.atom('bc_y4', 'real', kg=1, m=-3), D2.atom('bc_y6', 'real', m=-1)]
     bca = Arr('bc', default=lambda k: bcv[k % 3])
     cvec = Arr('c'); info = Ref(Frame(mb, 'c'), 'i'); info.frame.vars['i'] = 0
-    itb = Interp(repo, hooks={'call': lambda itp, fn_, a, k, e, fr_: (None if str(getattr(fn_, 'name', '')).endswith('zgesv') else NotImplemented)})
+    itb = Interp(repo, hooks={'call': lambda itp, fn_, a, k, e, fr_: (None if 'cython_lapack' in str(getattr(fn_, 'name', '')) else NotImplemented)})
     itb.call(mb, fb, [cvec, info, bca, Arr('y', default=lambda k: X.atom(f'Y{k}', 'complex')), g, G, 1, 6, 0, 1, True, False])
     v = cvec.store[0]
     chk.ob('R03.2', 'static-liquid surface condition y7 = y6 + (4 pi G / g) y2 is dimensionally homogeneous [1/m]', isinstance(v, X.Node) and d.equal(D2.scaled(v), S.factor(S.YDIM['y7']) * v), f'{v!r}', mb.where(fb),
@@ -468,112 +468,35 @@ def layout(chk, repo, d, eq):
 
 
 # ------------------------------------------------------------------------------------------------ R03.3 readers of the Love-number buffer
-class _ND:
-    """a tiny model of a numpy array of distinct tokens: reshape, transpose, basic slicing and indexing -- enough to evaluate the accessors of the solution object"""
-    def __init__(self, flat, shape): self.flat = list(flat); self.shape = tuple(shape)
-
-    def reshape(self, *shape):
-        shape = tuple(shape[0]) if len(shape) == 1 and isinstance(shape[0], (tuple, list)) else tuple(shape)
-        n = 1
-        for s_ in shape: n *= s_
-        if n != len(self.flat): raise ValueError(f'cannot reshape array of size {len(self.flat)} into shape {shape}')
-        return _ND(self.flat, shape)
-
-    def nested(self):
-        def build(off, shape):
-            if not shape: return self.flat[off]
-            step = 1
-            for s_ in shape[1:]: step *= s_
-            return [build(off + i * step, shape[1:]) for i in range(shape[0])]
-        return build(0, self.shape)
-
-    @property
-    def T(self):
-        if len(self.shape) != 2: return self
-        nst = self.nested()
-        rows, cols = self.shape
-        return _ND([nst[i][j] for j in range(cols) for i in range(rows)], (cols, rows))
-
-    def __getitem__(self, key):
-        nst = self.nested()
-        sub = nst[key]
-        def shape_of(x): return (len(x),) + shape_of(x[0]) if isinstance(x, list) and x else ((0,) if isinstance(x, list) else ())
-        def flat_of(x): return [z for y in x for z in flat_of(y)] if isinstance(x, list) else [x]
-        return _ND(flat_of(sub), shape_of(sub)) if isinstance(sub, list) else sub
-
-
 def love_readers(chk, repo):
-    """`.love`, `.k`, `.h`, `.l` of the solution object read the buffer the driver fills at 3 * type + (0, 1, 2): evaluated on a buffer of distinct tokens for 1, 2 and 3
-    requested types, love[t] must be (k_t, h_t, l_t) and k[t], h[t], l[t] the three entries of type t."""
+    """`.love`, `.k`, `.h`, `.l` of the solution object read the buffer the driver fills at 3 * type + (0, 1, 2): interpreted on a buffer of distinct symbols for 1, 2 and 3
+    requested types (the interpreter's numpy vectors model slicing, reshape and transpose), love[t] must be (k_t, h_t, l_t) and k[t], h[t], l[t] the three entries of type t."""
+    from ..core.interp import Vec, Obj, RaiseSignal
     ms = repo.by_path('TidalPy/RadialSolver/solver.pyx')
     cls = need_class(ms, 'RadialSolverSolution')
     mm = methods(cls)
-
-    def ev(e, env):
-        if isinstance(e, ast.Constant): return e.value
-        if isinstance(e, ast.Name):
-            if e.id in env: return env[e.id]
-            raise AnalysisError(f'accessor reads an unknown name {e.id}')
-        if isinstance(e, ast.Tuple): return tuple(ev(x, env) for x in e.elts)
-        if isinstance(e, ast.BinOp):
-            a, b = ev(e.left, env), ev(e.right, env)
-            return {ast.Add: lambda: a + b, ast.Sub: lambda: a - b, ast.Mult: lambda: a * b, ast.FloorDiv: lambda: a // b}[type(e.op)]()
-        if isinstance(e, ast.Attribute):
-            if isinstance(e.value, ast.Name) and e.value.id == 'self':
-                if e.attr in env['self']: return env['self'][e.attr]
-                raise AnalysisError(f'accessor reads self.{e.attr}, which the model of the solution object does not have')
-            if isinstance(e.value, ast.Name) and e.value.id == 'np': return ('np', e.attr)
-            base = ev(e.value, env)
-            if e.attr == 'T': return base.T
-            return (base, e.attr)
-        if isinstance(e, ast.Slice):
-            return slice(ev(e.lower, env) if e.lower else None, ev(e.upper, env) if e.upper else None, ev(e.step, env) if e.step else None)
-        if isinstance(e, ast.Subscript):
-            return ev(e.value, env)[ev(e.slice, env)]
-        if isinstance(e, ast.Call):
-            f = ev(e.func, env)
-            args = [ev(a_, env) for a_ in e.args]
-            if isinstance(f, tuple) and f[0] == 'np' and f[1] in ('ascontiguousarray', 'asarray', 'array', 'copy'): return args[0]
-            if isinstance(f, tuple) and isinstance(f[0], _ND) and f[1] == 'reshape': return f[0].reshape(*args)
-            if isinstance(f, tuple) and isinstance(f[0], _ND) and f[1] in ('copy', 'view'): return f[0]
-            raise AnalysisError(f'accessor calls {ast.unparse(e.func)}, which is not modelled')
-        raise AnalysisError(f'accessor uses {type(e).__name__}, which is not modelled')
-
-    def returned(fn, env):
-        """value of the `return` reached when self.success is true"""
-        def walk(body):
-            for st in body:
-                if isinstance(st, ast.Return): return st.value
-                if isinstance(st, ast.If):
-                    t = ast.unparse(st.test)
-                    if t == 'self.success': return walk(st.body)
-                    if t in ('not self.success', 'self.success is False'): r_ = walk(st.orelse); 
-                    else: r_ = None
-                    if r_ is not None: return r_
-            return None
-        e = walk(fn.body)
-        if e is None: raise AnalysisError(f'{fn.name}: no return on the successful path')
-        return ev(e, env)
     for name in ('love', 'k', 'h', 'l'):
         if name not in mm:
             raise AnalysisError(f'RadialSolverSolution.{name} vanished')
+
+    def names(v):
+        if isinstance(v, (Vec, list, tuple)): return [names(x_) for x_ in v]
+        v = getattr(v, 'v', v)
+        return v.val[0] if isinstance(v, X.Node) and v.op == 'atom' else repr(v)
     for nyt in (1, 2, 3):
-        toks = [f'{"khl"[i % 3]}[type {i // 3}]' for i in range(3 * nyt)]       # what the driver stores at 3 * type + i
-        env = {'self': {'complex_love_view': _ND(toks, (3 * nyt,)), 'num_ytypes': nyt, 'success': True}, 'MAX_NUM_Y': 6}
+        toks = Vec([X.atom(f'{"khl"[i % 3]}[type {i // 3}]', 'complex') for i in range(3 * nyt)])       # what the driver stores at 3 * type + i
         bad = []
-        try:
-            lv = returned(mm['love'], env)
-            got = lv.nested() if isinstance(lv, _ND) else None
-            want = [[f'{c}[type {t}]' for c in 'khl'] for t in range(nyt)]
-            if got != want: bad.append(f'.love is {got}, expected one row (k, h, l) per requested type')
-            for j, nm in enumerate('khl'):
-                v = returned(mm[nm], env)
-                g1 = v.nested() if isinstance(v, _ND) else None
-                if g1 != [f'{nm}[type {t}]' for t in range(nyt)]: bad.append(f'.{nm} is {g1}')
-        except (ValueError, IndexError, TypeError) as ex:
-            bad.append(f'the accessor raises {type(ex).__name__}: {ex}')
+        for nm in ('love', 'k', 'h', 'l'):
+            o = Obj(cls=('class', ms, cls), name='solution', attrs={'complex_love_view': toks, 'complex_love_ptr': toks, 'num_ytypes': nyt, 'success': True})
+            try:
+                got = names(Interp(repo, max_depth=6).call(ms, mm[nm], [], {}, self_obj=o))
+            except RaiseSignal as ex:
+                bad.append(f'.{nm} raises {ex.text[:80]}'); continue
+            want = [[f'{c}[type {t}]' for c in 'khl'] for t in range(nyt)] if nm == 'love' else [f'{nm}[type {t}]' for t in range(nyt)]
+            if got != want:
+                bad.append(f'.{nm} is {got}' + (', expected one row (k, h, l) per requested type' if nm == 'love' else ''))
         chk.ob('R03.3', f'readers .love / .k / .h / .l with {nyt} requested type(s): love[t] == (k, h, l) of type t and k[t], h[t], l[t] are the entries 3t, 3t+1, 3t+2 the driver fills', not bad, '; '.join(bad[:3]),
-               ms.where(mm['love']), key=f'R03.3|love-readers|{nyt}', method='accessors evaluated on a buffer of distinct tokens (reshape / transpose / slicing modelled)')
+               ms.where(mm['love']), key=f'R03.3|love-readers|{nyt}', method='accessors interpreted on a buffer of distinct symbols (numpy slicing / reshape / transpose modelled)')
 
 
 # ------------------------------------------------------------------------------------------------ R03.5 reciprocity (Saito-Molodensky)
